@@ -331,6 +331,58 @@ fn slices(r: &Rope<'static>, m: &str, who: &str, depth: usize, obs: &mut Obs) {
   if r.get_byte_slice(..).map(|g| g.to_string()) != Some(m.to_string()) {
     obs.fail("get_byte_slice_full", format!("{who}: get_byte_slice(..) wrong for {:?}", m));
   }
+  bound_kinds(r, m, who, obs);
+}
+
+/// Every combination of start / end bound kinds (`a..=b`, `..=b`, excluded
+/// starts) with endpoints around the length and at the extremes of usize;
+/// the expectation is what the flat string answers for the same bounds.
+pub fn bound_kinds(r: &Rope<'static>, m: &str, who: &str, obs: &mut Obs) {
+  use std::ops::Bound;
+  let n = m.len();
+  let mut pts: Vec<usize> = (0..=n + 1).collect();
+  pts.extend([usize::MAX - 1, usize::MAX]);
+  let mk = |kind: usize, v: usize| match kind {
+    0 => Bound::Included(v),
+    1 => Bound::Excluded(v),
+    _ => Bound::Unbounded,
+  };
+  for sk in 0..3 {
+    for ek in 0..3 {
+      if sk == 0 && ek == 1 {
+        // a..b is covered above
+        continue;
+      }
+      for &s in if sk == 2 { &pts[..1] } else { &pts[..] } {
+        for &e in if ek == 2 { &pts[..1] } else { &pts[..] } {
+          obs.count("slice_bound_kind_ranges", 1);
+          let (sb, eb) = (mk(sk, s), mk(ek, e));
+          let lo = match sb {
+            Bound::Included(v) => Some(v),
+            Bound::Excluded(v) => v.checked_add(1),
+            Bound::Unbounded => Some(0),
+          };
+          let hi = match eb {
+            Bound::Included(v) => v.checked_add(1),
+            Bound::Excluded(v) => Some(v),
+            Bound::Unbounded => Some(n),
+          };
+          let exp = match (lo, hi) {
+            (Some(a), Some(b)) if a <= b => m.get(a..b),
+            _ => None,
+          };
+          let got = r.get_byte_slice((sb, eb)).map(|g| g.to_string());
+          if got.as_deref() != exp {
+            obs.fail(
+              "get_byte_slice_bound_kinds",
+              format!("{who}: get_byte_slice(({sb:?}, {eb:?})) = {got:?}, expected {exp:?} of {m:?}"),
+            );
+            return;
+          }
+        }
+      }
+    }
+  }
 }
 
 fn binary(r: &Rope<'static>, m: &str, who: &str, obs: &mut Obs) {
